@@ -147,7 +147,7 @@ enum_c20(int worker, int nworkers, bool thorough)
 	static const char *kIns[] = {"", "setopt 0 0 3 0 1", "setopt 0 1 3 0 0", "close 0 0", "close 1 0", "pipeclose 0 0", "pipeclose 1 0", "epclose 0 0", "epclose 1 0", "stats", "ctxopen 0", "ctxopen 1",
 	    "cancel 0 0", "send 0 1 5000 0", "recv 1 1 0 0", "sleep 5", "open 3 0", "subscribe 0 1 0"};
 	int nins = thorough ? (int) (sizeof kIns / sizeof kIns[0]) : 1;
-	for (int t = 0; t < api::kNTemplates; t++)
+	for (int t = 0; t < api::kNEnumTemplates; t++)
 		for (int T = 0; T < 4; T++)
 			for (int S = 0; S < 3; S++)
 				for (int F = 0; F < 2; F++) {
